@@ -1339,7 +1339,10 @@ class FieldUnpackerCodeBlockBuilder:
                 could_be_none=False if could_be_none else True,
             )
         )
-        if self.parent.get_config().allow_deserialization_not_by_alias:
+        if (
+            alias is not None
+            and self.parent.get_config().allow_deserialization_not_by_alias
+        ):
             if unpacked_value != "value":
                 self.add_line(f"value = d.get('{alias}', MISSING)")
                 with self.indent("if value is MISSING:"):
